@@ -518,10 +518,15 @@ func ruleLenEffect(c *Ctx, rule, pkg, typ string, field *types.Var, spec map[str
 		if c.P.isCanaryFn(fn) || fn.Parent() != nil {
 			continue
 		}
+		name := fnName(fn)
 		if !x.storesField(fn, map[*ssa.Function]bool{}) {
+			// a method whose contract is to make the container longer, and that never writes it
+			if w, ok := spec[fn.Name()]; ok && w.k > 0 && len(w.at) == 1 && w.at["L0"] == 1 {
+				c.sawFn(name)
+				c.bad(rule, name+":length at return", fn.Pos(), fmt.Sprintf("the method's contract makes the length %s, but it never writes the buffer: the value it was given is dropped", w))
+			}
 			continue
 		}
-		name := fnName(fn)
 		c.sawFn(name)
 		want, inTable := spec[fn.Name()]
 		if !inTable {
@@ -537,8 +542,12 @@ func ruleLenEffect(c *Ctx, rule, pkg, typ string, field *types.Var, spec map[str
 		}
 		var bad []string
 		unknown := false
+		grows := inTable && want.k > 0 && len(want.at) == 1 && want.at["L0"] == 1
 		for _, e := range ends {
 			if !e.stored {
+				if grows {
+					bad = append(bad, fmt.Sprintf("L0 (nothing written) at %s", c.P.pos(e.pos)))
+				}
 				continue
 			}
 			got := e.norm(e.form)
